@@ -13,6 +13,8 @@ O: the three scipy distribution objects used by GammaPriorConcentrationSampler a
 import json
 import math
 
+import numpy as np
+
 from .. import env, tlc, absstate, chainlib
 from ..evidence import Check
 
@@ -290,8 +292,28 @@ def run(corrupt=None):
             self.calls.append((old, k, n))
             return 0.7531
 
-    data = absstate.make_data(n_kn, dims=1, grid=4, seed=ck.seed, kind="int", outlier_prob=0.2)
-    for rec in rkn.json_prints:
+    data_plain = absstate.make_data(n_kn, dims=1, grid=4, seed=ck.seed, kind="int", outlier_prob=0.2)
+    # the same with data points as the loader builds them from a PRE-CLUSTERED input (clusters of 2, 1 and 3 mutations):
+    # n is the number of data points (clusters) in clones, not the number of mutations
+    import io as _io
+    import contextlib as _cl
+    import os as _os
+    from phyclone.data.pyclone import load_data
+    dl = env.scratch("c13_loader")
+    rows, crow = [], []
+    for c_ in range(n_kn):
+        for j_ in range((2, 1, 3)[c_ % 3]):
+            for s_ in ("S1", "S2"):
+                rows.append("c%d_m%d\t%s\t%d\t%d\t2\t1\t2" % (c_, j_, s_, 40 + c_, 8 + j_))
+            crow.append("c%d_m%d\t%d" % (c_, j_, c_))
+    with open(_os.path.join(dl, "in.tsv"), "w") as fh:
+        fh.write("mutation_id\tsample_id\tref_counts\talt_counts\tmajor_cn\tminor_cn\tnormal_cn\n" + "\n".join(rows) + "\n")
+    with open(_os.path.join(dl, "cl.tsv"), "w") as fh:
+        fh.write("mutation_id\tcluster_id\n" + "\n".join(crow) + "\n")
+    with _cl.redirect_stdout(_io.StringIO()):
+        data_loaded, _ = load_data(_os.path.join(dl, "in.tsv"), np.random.default_rng(3), 0.0001, 0.4, False, cluster_file=_os.path.join(dl, "cl.tsv"),
+                                   density="binomial", grid_size=4, outlier_prob=0.2, precision=400)
+    for rec, data in [(r_, data_plain) for r_ in rkn.json_prints] + [(r_, data_loaded) for r_ in rkn.json_prints]:
         key = absstate.canon(rec["st"])
         if not absstate.data_ids(key):
             continue
